@@ -1,6 +1,67 @@
 import SigpyVerif.Model.Py
 import SigpyVerif.Model.Proto
+import SigpyVerif.Model.C12
 namespace SigpyVerif.Drv.C12
-/-- protocol handler for property C12 (tokens after the property id). -/
-def handle (_toks : List String) : String := "err bad-op"
+open SigpyVerif SigpyVerif.Proto SigpyVerif.C12
+
+def fmtState (maxIter : Int) (tol : Rat) (s : State CVec Rat) : String :=
+  s!"x={fmtCRatList s.x.toList} r={fmtCRatList s.r.toList} p={fmtCRatList s.p.toList} rz={fmtRat s.rzold} resid2={fmtRat s.resid2} npd={fmtBool s.npd} iter={s.iter} alias={fmtBool s.alias} done={fmtBool (done ratOps maxIter tol s)}"
+
+def parseP (n : Nat) (Ps : String) : Option (Option (CVec → CVec)) :=
+  if Ps == "none" then some none else
+  match Ps.splitOn ":" with
+  | ["diag", l] => (parseCRatList? l).bind fun d =>
+      if d.length ≠ n then none else some (some (fun v => vzip cmul d.toArray v))
+  | ["dense", l] => (parseCRatList? l).bind fun d =>
+      if d.length ≠ n * n then none else some (some (matVec n d.toArray))
+  | _ => none
+
+/-- `C12 step n= A= P= maxiter= tol= x= r= p= rz= resid2= npd= iter=` → the state after ONE `update()` from
+    an arbitrary state (used for the float tie: a float state is an exact dyadic-rational state). -/
+def handleStep (toks : List String) : String :=
+  let getV (k : String) := ((kv toks k).bind parseCRatList?).map List.toArray
+  let getR (k : String) := (kv toks k).bind parseRat?
+  match (kv toks "n").bind parseInt?, getV "A", kv toks "P", (kv toks "maxiter").bind parseInt?, getR "tol",
+        getV "x", getV "r", getV "p", getR "rz", getR "resid2", (kv toks "npd").bind parseInt?,
+        (kv toks "iter").bind parseInt? with
+  | some n, some A, some Ps, some maxIter, some tol, some x, some r, some p, some rz, some r2, some npd, some it =>
+    let n := n.toNat
+    if A.size ≠ n * n ∨ x.size ≠ n ∨ r.size ≠ n ∨ p.size ≠ n then "err size" else
+    match parseP n Ps with
+    | none => "err bad-op"
+    | some P =>
+      let s : State CVec Rat := { x := x, r := r, p := p, rzold := rz, resid2 := r2, npd := npd != 0, iter := it,
+                                  alias := !decide (maxIter > 1) }
+      if divByZero (matVec n A) maxIter s then "err zerodiv" else
+      "ok " ++ fmtState maxIter tol (update ratOps (matVec n A) P maxIter s)
+  | _, _, _, _, _, _, _, _, _, _, _, _ => "err bad-op"
+
+/-- `C12 run n= A= b= x= P=none|diag:<list>|dense:<list> maxiter= tol= k=` → the state after
+    `__init__` and after each of the `k` updates, separated by ` # `. -/
+def handle (toks : List String) : String :=
+  match toks.head? with
+  | some "run" =>
+    let getV (k : String) := ((kv toks k).bind parseCRatList?).map List.toArray
+    match (kv toks "n").bind parseInt?, getV "A", getV "b", getV "x", kv toks "P",
+          (kv toks "maxiter").bind parseInt?, (kv toks "tol").bind parseRat?, (kv toks "k").bind parseInt? with
+    | some n, some A, some b, some x, some Ps, some maxIter, some tol, some k =>
+      let n := n.toNat
+      if A.size ≠ n * n ∨ b.size ≠ n ∨ x.size ≠ n then "err size" else
+      match parseP n Ps with
+      | none => "err bad-op"
+      | some P =>
+        let Af := matVec n A
+        let rec go (fuel : Nat) (s : State CVec Rat) (acc : List String) : List String :=
+          match fuel with
+          | 0 => acc.reverse
+          | f + 1 =>
+            if divByZero Af maxIter s then ("err zerodiv" :: acc).reverse
+            else
+              let s' := update ratOps Af P maxIter s
+              go f s' (fmtState maxIter tol s' :: acc)
+        let s0 := init ratOps Af P b x maxIter
+        "ok " ++ " # ".intercalate (go k.toNat s0 [fmtState maxIter tol s0])
+    | _, _, _, _, _, _, _, _ => "err bad-op"
+  | some "step" => handleStep toks
+  | _ => "err bad-op"
 end SigpyVerif.Drv.C12
